@@ -70,6 +70,9 @@ def run(prop, tier, replay):
 
 def do_replay(sc, prop, path):
     rf = json.load(open(path))
+    if rf.get("kind") == "route":
+        import fam_route
+        return fam_route.replay(sc, rf)
     binp, _ = build_driver(sc, rf["batch"])
     p = vlib.run([binp, "-replay", path], ok_codes=(0, 1))
     print(p.stdout.strip())
@@ -152,6 +155,10 @@ def do_check(sc, prop, tier):
             viol["what"], inst, cfg["RingSize"], len(viol["schedule"])))
         if len(v.violations) >= 3:
             break
+    if prop == "C01" and not v.violations:
+        # engine level: the public send / forward / respond / request paths, sender identity included
+        import fam_route
+        fam_route.part(sc, v, tier)
     if prop == "C02" and not v.violations:
         # engine level: restarts, replay of the restart buffer, pills, budget exhaustion -- the paths on which Start
         # reaches inbox.Start while a worker of the same actor may still be inside run()
